@@ -325,6 +325,11 @@ def run_roundtrip(job, acc):
         if (_idx // job["of"]) % 4 == 0:
             acc.states += 1
             check_roundtrip(acc, desc, order="stale")
+        if (_idx // job["of"]) % 8 == 1:
+            # very long net names (flattened hierarchical names): longer than any line width a writer may assume
+            acc.states += 1
+            long = {x[0]: f"u_top_u_core_u_alu_{x[0]}_" + "stage_" * 14 + x[0] for x in desc["nodes"]}
+            check_roundtrip(acc, space.rename(desc, long))
         if any(x[1] in ("0", "1") for x in desc["nodes"]):
             acc.states += 1
             check_roundtrip(acc, desc, order="rev")   # constants / gates inserted before the inputs
